@@ -208,6 +208,27 @@ structure SpSt (cap : Cap) (L R : Bool) (p : Pool) (m : Nat) (k : Int) (P : Cnt 
   ac : AccAt p m P
   lt : m < p.reqs.length
   nw : ∀ r, p.reqs[m]? = some r → r.frame ≠ .waitRoom
+  cn : CancEx (· = m) p
+
+/-- request `m` (the spawner that is running) is rewritten: its snapshot stays, and so do its counters unless it has
+none -/
+theorem CancEx.modReqSelf {p : Pool} {m : Nat} (h : CancEx (· = m) p) (f : Req → Req)
+    (hcs : ∀ r, p.reqs[m]? = some r → (f r).cancelSnap = r.cancelSnap ∧
+      (((f r).created = r.created ∧ (f r).pulled = r.pulled) ∨ r.cancelSnap = none)) : CancEx (· = m) (p.modReq m f) := by
+  intro i r' c u a b
+  simp only [Pool.modReq] at a
+  obtain ⟨x, hx, rfl⟩ := getElem?_modify_some p.reqs m i f r' a
+  by_cases e : m = i
+  · subst e
+    simp only [if_true] at b ⊢
+    obtain ⟨e1, e2⟩ := hcs x hx
+    rw [e1] at b
+    rcases e2 with ⟨e3, e4⟩ | e3
+    · obtain ⟨h1, h2, _⟩ := h m x c u hx b
+      exact ⟨by rw [e3]; exact h1, by rw [e4]; exact h2, Or.inl trivial⟩
+    · rw [e3] at b; cases b
+  · simp only [e, if_false] at b ⊢
+    exact h i x c u hx b
 
 theorem Req.pend_zero {r : Req} (h : r.frame ≠ .waitRoom) : r.pend = 0 := by
   unfold Req.pend
@@ -223,15 +244,16 @@ theorem PM.ff (l h : Nat) : FrameFree (PM l h) := fun _ _ _ h => h
 theorem Good.sp {cap : Cap} {L R : Bool} {p : Pool} (hg : Good cap L R p) (m : Nat) (hlt : m < p.reqs.length)
     (hnw : ∀ r, p.reqs[m]? = some r → r.frame ≠ .waitRoom) :
     SpSt cap L R p m 0 (fun c fr => AccReq c fr 0) :=
-  ⟨hg.toGood0, hg.map.mid m, hg.acc.atReq m, hlt, hnw⟩
+  ⟨hg.toGood0, hg.map.mid m, hg.acc.atReq m, hlt, hnw, hg.canc.ex _⟩
 
 theorem SpSt.good {cap : Cap} {L R : Bool} {p : Pool} {m : Nat} {k : Int} {P : Cnt → MFrame → Prop}
-    (h : SpSt cap L R p m k P) (hk : k = 0) (hP : ∀ c fr, P c fr → AccReq c fr 0) : Good cap L R p :=
-  ⟨h.g0, h.mp.ok hk, h.ac.ok hP⟩
+    (h : SpSt cap L R p m k P) (hk : k = 0) (hP : ∀ c fr, P c fr → AccReq c fr 0)
+    (hcm : ∀ r c u, p.reqs[m]? = some r → r.cancelSnap = some (c, u) → r.frame = .done ∨ DoomedAt p m r) : Good cap L R p :=
+  ⟨h.g0, h.mp.ok hk, h.ac.ok hP, h.cn.close hcm⟩
 
 theorem SpSt.weaken {cap : Cap} {L R : Bool} {p : Pool} {m : Nat} {k : Int} {P Q : Cnt → MFrame → Prop}
     (h : SpSt cap L R p m k P) (hPQ : ∀ c fr, P c fr → Q c fr) : SpSt cap L R p m k Q :=
-  ⟨h.g0, h.mp, h.ac.weaken hPQ, h.lt, h.nw⟩
+  ⟨h.g0, h.mp, h.ac.weaken hPQ, h.lt, h.nw, h.cn⟩
 
 /-- a tame step (nested user code included) -/
 theorem SpSt.tame {cap : Cap} {L R : Bool} {p q : Pool} {m : Nat} {k : Int} {P : Cnt → MFrame → Prop}
@@ -242,7 +264,7 @@ theorem SpSt.tame {cap : Cap} {L R : Bool} {p q : Pool} {m : Nat} {k : Int} {P :
       · rcases b.fr with e | e
         · rw [e]; exact h.nw r a
         · rw [e]; intro x; cases x
-      · have := h.lt; omega⟩
+      · have := h.lt; omega, t.cok _ h.cn⟩
 
 /-- request `m` is rewritten: no map slot moves unless accounted for by `k → k'`, `created` stays -/
 theorem SpSt.modReq {cap : Cap} {L R : Bool} {p : Pool} {m : Nat} {k : Int} {P : Cnt → MFrame → Prop}
@@ -256,14 +278,17 @@ theorem SpSt.modReq {cap : Cap} {L R : Bool} {p : Pool} {m : Nat} {k : Int} {P :
     (hc : ∀ r, (f r).created = r.created)
     (hf : ∀ r, p.reqs[m]? = some r → P r.cnt r.frame → P' (f r).cnt (f r).frame)
     (hnw : ∀ r, r.frame ≠ .waitRoom → (f r).frame ≠ .waitRoom)
-    (hwk : ∀ r, p.reqs[m]? = some r → r.mapSem.WakeInv → (f r).mapSem.WakeInv) :
+    (hwk : ∀ r, p.reqs[m]? = some r → r.mapSem.WakeInv → (f r).mapSem.WakeInv)
+    (hcs : ∀ r, p.reqs[m]? = some r → (f r).cancelSnap = r.cancelSnap ∧
+      (((f r).created = r.created ∧ (f r).pulled = r.pulled) ∨ r.cancelSnap = none) := by
+        intro r _; exact ⟨rfl, Or.inl ⟨rfl, rfl⟩⟩) :
     SpSt cap L R (p.modReq m f) m k' P' :=
   ⟨(Pool.tame0_modReq p m f).good0 h.g0, h.mp.modReq f k' hsem hnc hacq hwk, h.ac.modReq f hc hf,
     by simpa [Pool.modReq] using h.lt, fun r' hr' => by
       simp only [Pool.modReq] at hr'
       obtain ⟨x, hx, rfl⟩ := getElem?_modify_some p.reqs m m f r' hr'
       simp only [if_true]
-      exact hnw x (h.nw x hx)⟩
+      exact hnw x (h.nw x hx), h.cn.modReqSelf f hcs⟩
 
 /-- request `m` is rewritten in fields the map books do not read -/
 theorem SpSt.modReq' {cap : Cap} {L R : Bool} {p : Pool} {m : Nat} {k : Int} {P : Cnt → MFrame → Prop}
@@ -272,7 +297,10 @@ theorem SpSt.modReq' {cap : Cap} {L R : Bool} {p : Pool} {m : Nat} {k : Int} {P 
       ((f r).outcome = none → r.outcome = none))
     (hacq : ∀ r, p.reqs[m]? = some r → r.AcqOK → (f r).AcqOK)
     (hc : ∀ r, (f r).created = r.created)
-    (hf : ∀ r, p.reqs[m]? = some r → P r.cnt r.frame → P' (f r).cnt (f r).frame) :
+    (hf : ∀ r, p.reqs[m]? = some r → P r.cnt r.frame → P' (f r).cnt (f r).frame)
+    (hcs : ∀ r, p.reqs[m]? = some r → (f r).cancelSnap = r.cancelSnap ∧
+      (((f r).created = r.created ∧ (f r).pulled = r.pulled) ∨ r.cancelSnap = none) := by
+        intro r _; exact ⟨rfl, Or.inl ⟨rfl, rfl⟩⟩) :
     SpSt cap L R (p.modReq m f) m k P' := by
   have hfw : ∀ r, p.reqs[m]? = some r → (f r).frame ≠ .waitRoom := fun r hr => by
     rcases (hs r).2.2.1 with e | e
@@ -284,7 +312,7 @@ theorem SpSt.modReq' {cap : Cap} {L R : Bool} {p : Pool} {m : Nat} {k : Int} {P 
       simp only [Pool.modReq] at hr'
       obtain ⟨x, hx, rfl⟩ := getElem?_modify_some p.reqs m m f r' hr'
       simp only [if_true]
-      exact hfw x hx⟩
+      exact hfw x hx, h.cn.modReqSelf f hcs⟩
   intro r v hr hv
   have e1 : (f r).pend = r.pend := by rw [Req.pend_zero (hfw r hr), Req.pend_zero (h.nw r hr)]
   have e2 := (hs r).2.2.2
@@ -356,7 +384,7 @@ theorem _root_.Taskpool.SpSt.schedOpt {cap : Cap} {L R : Bool} {p : Pool} {m : N
       · rcases b.fr with e | e
         · rw [e]; exact h.nw r a
         · rw [e]; intro x; cases x
-      · have := h.lt; omega⟩
+      · have := h.lt; omega, (tame_schedOpt p o).cok _ h.cn⟩
 
 /-- `release()` of a request's own semaphore keeps any description of the books and the number of requests -/
 theorem accFrame_releaseMap' (p : Pool) (m : Nat) :
